@@ -1,5 +1,6 @@
 import DriverLib.Chain
 import DriverLib.Revo
+import DriverLib.Trust
 /-!
   Line-protocol driver: one JSON case per line on stdin, one JSON answer per line on stdout.
   `{"id":…, "k":<handler>, "in":{…}}`  ↦  `{"id":…, "out":{…}}` or `{"id":…, "error":"…"}`.
@@ -11,6 +12,8 @@ def dispatch (prop k : String) (i impl : Json) : E Json :=
   match k with
   | "chain" => handleChain i
   | "validate" => handleValidate prop i impl
+  | "trust" => handleTrust i
+  | "authtime" => handleAuthTime i
   | _ => throw s!"unknown handler {k}"
 
 def answer (line : String) : String :=
